@@ -7,6 +7,8 @@ from .. import core, tlc
 from .. import rig as R  # noqa: F401
 from ..tlaparse import to_json
 
+ENC_TEXT = 'src1%2Cx%3Dy%20z'        # one value: 'src1,x=y z'
+ENC_VALUE = 'src1,x=y z'
 VALUE_LIMIT = 5
 VALUES = {'short_str': 'abc', 'long_str': 'abcdefghij', 'int': 7, 'bool': True, 'float': 1.5, 'bytes_ok': b'xyz',
           'bytes_bad': b'\xff\xfe', 'seq_same': ['a', 'b'], 'seq_none': ['a', None], 'seq_mixed': ['a', 1],
@@ -107,7 +109,7 @@ def resource_case(srcs):
     problems = []
     try:
         env = srcs[0]
-        pairs = ['%s=src1' % k for k in sorted(env['keys']) if k != 'svc']
+        pairs = ['%s=%s' % (k, ENC_TEXT if env.get('encoded') else 'src1') for k in sorted(env['keys']) if k != 'svc']
         if 'svc' in env['keys'] and env.get('blank'):
             pairs.append('service.name=')
         os.environ.pop('DEEP_RESOURCE_ATTRIBUTES', None)
@@ -141,7 +143,13 @@ def resource_case(srcs):
             elif v == '':
                 owner[k] = max(i for i, sr in enumerate(srcs, 1) if k in sr['keys'])   # the blank value of its last giver
             elif isinstance(v, str) and v.startswith('src'):
-                owner[k] = int(v[3:])
+                owner[k] = int(v[3])
+                if v not in ('src%d' % owner[k], ENC_VALUE):
+                    problems.append('attribute %s arrived as %r' % (rk, v))
+                if v == ENC_VALUE and not (owner[k] == 1 and srcs[0].get('encoded')):
+                    problems.append('attribute %s = %r but nobody provided that' % (rk, v))
+                if owner[k] == 1 and srcs[0].get('encoded') and k != 'svc' and v != ENC_VALUE:
+                    problems.append('the environment gave %s the encoded value %r, it arrived as %r' % (rk, ENC_TEXT, v))
             else:
                 owner[k] = 0
         for must in ('telemetry.sdk.language', 'telemetry.sdk.name', 'telemetry.sdk.version', SERVICE_NAME):
@@ -170,10 +178,12 @@ def resource_case(srcs):
 _deep_counter = [0]
 
 
-def deep_start_case(srcs):
+def deep_start_case(srcs, second=None):
     """The same assembly done by the agent itself: Deep.start() with the environment and resource-provider plugins
     (srcs[1], the code source, provides nothing). Returns (owner per key, schema, problems); the resource is read from
-    the configuration AND from the first poll request."""
+    the configuration AND from the first poll request. With `second` (another list of sources) the agent is shut down,
+    the environment and what the plugins provide are changed, and the SAME Deep object is started again: returns a
+    list of two such triples - the second life's identity is that of the second environment."""
     import sys
     import types
     import deep.api.plugin as plugin_mod
@@ -190,29 +200,16 @@ def deep_start_case(srcs):
     plugin_mod.DEEP_PLUGINS = []
     _deep_counter[0] += 1
     m = types.ModuleType('vres_%d_%d' % (os.getpid(), _deep_counter[0]))
-    problems = []
     d = None
+    current = {'srcs': srcs}
+    results = []
     try:
-        env = srcs[0]
-        pairs = ['%s=src1' % k for k in sorted(env['keys']) if k != 'svc']
-        if 'svc' in env['keys'] and env.get('blank'):
-            pairs.append('service.name=')
-        os.environ.pop('DEEP_RESOURCE_ATTRIBUTES', None)
-        os.environ.pop('DEEP_SERVICE_NAME', None)
-        if pairs:
-            os.environ['DEEP_RESOURCE_ATTRIBUTES'] = ','.join(pairs)
-        if 'svc' in env['keys'] and not env.get('blank'):
-            if env.get('emptyVar'):
-                # the name comes through the attribute list, DEEP_SERVICE_NAME is exported but empty
-                os.environ['DEEP_RESOURCE_ATTRIBUTES'] = ','.join(pairs + ['service.name=src1'])
-                os.environ['DEEP_SERVICE_NAME'] = ''
-            else:
-                os.environ['DEEP_SERVICE_NAME'] = 'src1'
         names = []
-        for i, p in enumerate(srcs[2:], 3):
-            def make(i=i, p=p):
+        for i in (3, 4):
+            def make(i=i):
                 class Provider(ResourceProvider):
                     def resource(self):
+                        p = current['srcs'][i - 1]
                         return Resource({real_key[k]: 'src%d' % i for k in p['keys']}, p['schema'] or None)
                 Provider.__name__ = 'P%d' % i
                 return Provider
@@ -231,28 +228,52 @@ def deep_start_case(srcs):
             polled.append({kv.key: kv.value.string_value for kv in request.resource.attributes})
             return PollResponse(ts_nanos=1, current_hash='', response_type=ResponseType.NO_CHANGE)
         chan.script('/poll', poll)
-        d.start()
-        res = cfg.resource
-        owner = {}
-        for k, rk in real_key.items():
-            v = res.attributes.get(rk)
-            if v is None:
-                owner[k] = 99
-            elif isinstance(v, str) and v.startswith('src'):
-                owner[k] = int(v[3:])
+        for life_srcs in [srcs] + ([second] if second is not None else []):
+            current['srcs'] = life_srcs
+            problems = []
+            env = life_srcs[0]
+            pairs = ['%s=%s' % (k, ENC_TEXT if env.get('encoded') else 'src1') for k in sorted(env['keys']) if k != 'svc']
+            if 'svc' in env['keys'] and env.get('blank'):
+                pairs.append('service.name=')
+            os.environ.pop('DEEP_RESOURCE_ATTRIBUTES', None)
+            os.environ.pop('DEEP_SERVICE_NAME', None)
+            if pairs:
+                os.environ['DEEP_RESOURCE_ATTRIBUTES'] = ','.join(pairs)
+            if 'svc' in env['keys'] and not env.get('blank'):
+                if env.get('emptyVar'):
+                    os.environ['DEEP_RESOURCE_ATTRIBUTES'] = ','.join(pairs + ['service.name=src1'])
+                    os.environ['DEEP_SERVICE_NAME'] = ''
+                else:
+                    os.environ['DEEP_SERVICE_NAME'] = 'src1'
+            del polled[:]
+            d.start()
+            res = cfg.resource
+            owner = {}
+            for k, rk in real_key.items():
+                v = res.attributes.get(rk)
+                if v is None:
+                    owner[k] = 99
+                elif isinstance(v, str) and v.startswith('src'):
+                    owner[k] = int(v[3])
+                    if v not in ('src%d' % owner[k], ENC_VALUE):
+                        problems.append('attribute %s arrived as %r' % (rk, v))
+                    if owner[k] == 1 and env.get('encoded') and k != 'svc' and v != ENC_VALUE:
+                        problems.append('the environment gave %s the encoded value %r, it arrived as %r' % (rk, ENC_TEXT, v))
+                else:
+                    owner[k] = 0
+            for must in ('telemetry.sdk.language', 'telemetry.sdk.name', 'telemetry.sdk.version', SERVICE_NAME):
+                if not res.attributes.get(must):
+                    problems.append('mandatory key %s missing' % must)
+            if not polled:
+                problems.append('no poll request was sent by start()')
             else:
-                owner[k] = 0
-        for must in ('telemetry.sdk.language', 'telemetry.sdk.name', 'telemetry.sdk.version', SERVICE_NAME):
-            if not res.attributes.get(must):
-                problems.append('mandatory key %s missing' % must)
-        if not polled:
-            problems.append('no poll request was sent by start()')
-        else:
-            for rk in real_key.values():
-                if res.attributes.get(rk) is not None and polled[0].get(rk) != res.attributes.get(rk):
-                    problems.append('resource in the poll request: %s=%r, configured %r' % (rk, polled[0].get(rk),
-                                                                                          res.attributes.get(rk)))
-        return owner, res.schema_url, problems
+                for rk in real_key.values():
+                    if res.attributes.get(rk) is not None and polled[0].get(rk) != res.attributes.get(rk):
+                        problems.append('resource in the poll request: %s=%r, configured %r' % (rk, polled[0].get(rk),
+                                                                                              res.attributes.get(rk)))
+            results.append((owner, res.schema_url, problems))
+            d.shutdown()
+        return results if second is not None else results[0]
     finally:
         try:
             if d is not None:
@@ -275,40 +296,50 @@ def deep_start_leg(c, quick):
     c.transitions += sim.generated
     seen = set()
     shown = 0
+    cases = []
     for beh in sim.behaviours:
         final = beh[-1][2]
         if final['pc'] != 5:
             continue
-        srcs = [{'keys': sorted(s['keys']), 'schema': s['schema'], 'blank': s['blank'], 'emptyVar': s['emptyVar']}
+        srcs = [{'keys': sorted(s['keys']), 'schema': s['schema'], 'blank': s['blank'], 'emptyVar': s['emptyVar'],
+                 'encoded': s['encoded']}
                 for s in to_json(final['srcs'])]
         if str(srcs) in seen:
             continue
         seen.add(str(srcs))
+        cases.append((srcs, final))
+    import threading
+    # every case is the first life of one run and the second life (same Deep object, the environment and what the
+    # plugins provide changed in between) of the previous one
+    for idx, (srcs, final) in enumerate(cases):
+        nxt = cases[(idx + 1) % len(cases)] if len(cases) > 1 else None
         out = {}
 
         def body():
-            out['r'] = deep_start_case(srcs)
-        import threading
+            out['r'] = deep_start_case(srcs, second=nxt[0] if nxt else None)
         th = threading.Thread(target=body)       # start()/shutdown() touch the calling thread's trace hooks
         th.start()
         th.join(60)
         if 'r' not in out:
             raise tlc.MachineryError('Deep.start case did not finish')
-        owner, schema, problems = out['r']
-        exp = {k: final['acc']['owner'][k] for k in ('svc', 'k1', 'k2')}
-        if owner != exp:
-            problems.append('value sources %s, spec %s' % (owner, exp))
-        if (schema or '') != final['acc']['schema']:
-            problems.append('schema %r, spec %r' % (schema, final['acc']['schema']))
-        c.traces_validated += 1
-        c.note_case(key=('deep-start', str(srcs)), nontrivial=sum(len(s['keys']) for s in srcs[2:]) >= 1)
-        if problems:
-            path = c.save_replay({'direction': 'S2C', 'module': 'ResourceMerge', 'via': 'Deep.start', 'sources': srcs,
-                                  'problems': problems})
-            if c.violation('Deep.start with resource sources %s: %s' % (srcs, problems[:2]), path):
-                shown += 1
-                if shown >= 6:
-                    return
+        lives = out['r'] if nxt else [out['r']]
+        for life_no, ((owner, schema, problems), (ls, lf)) in enumerate(zip(lives, [(srcs, final)] + ([nxt] if nxt else [])), 1):
+            exp = {k: lf['acc']['owner'][k] for k in ('svc', 'k1', 'k2')}
+            problems = list(problems)
+            if owner != exp:
+                problems.append('value sources %s, spec %s' % (owner, exp))
+            if (schema or '') != lf['acc']['schema']:
+                problems.append('schema %r, spec %r' % (schema, lf['acc']['schema']))
+            c.traces_validated += 1
+            c.note_case(key=('deep-start', life_no, str(ls)), nontrivial=sum(len(s_['keys']) for s_ in ls[2:]) >= 1)
+            if problems:
+                path = c.save_replay({'direction': 'S2C', 'module': 'ResourceMerge', 'via': 'Deep.start', 'life': life_no,
+                                      'sources': ls, 'previous_life': srcs if life_no == 2 else None, 'problems': problems})
+                if c.violation('Deep.start (life %d of one Deep object) with resource sources %s: %s' % (life_no, ls, problems[:2]),
+                               path):
+                    shown += 1
+                    if shown >= 6:
+                        return
 
 
 def resource_leg(c, quick):
@@ -323,7 +354,8 @@ def resource_leg(c, quick):
         final = beh[-1][2]
         if final['pc'] != 5:
             continue
-        srcs = [{'keys': sorted(s['keys']), 'schema': s['schema'], 'blank': s['blank'], 'emptyVar': s['emptyVar']}
+        srcs = [{'keys': sorted(s['keys']), 'schema': s['schema'], 'blank': s['blank'], 'emptyVar': s['emptyVar'],
+                 'encoded': s['encoded']}
                 for s in to_json(final['srcs'])]
         if str(srcs) in seen:
             continue
